@@ -235,3 +235,91 @@ fn c10_block_values_varstep() {
 fn c10_block_values_fixedstep() {
     block_values_varfixed(3);
 }
+
+// @harness c03_query_end_to_end
+// @props C03 C05 C10 C01
+// @tier quick
+// @kind core
+// @timeout 2400
+// @mem 24
+// @fs 16384
+// @sub src/bbi/bbiread.rs ::: use bytes::{Buf, BytesMut}; ::: use crate::verif_support::bbuf::BytesMut; ||| src/bbi/bigwigread.rs ::: use bytes::{Buf, BytesMut}; ::: use crate::verif_support::bbuf::BytesMut;
+// @functions the body of BigWigRead::get_interval, statement by statement (the iterator is built in place, see the comment in the harness): BBIFileInfo::chrom_id, full_data_cir_tree + read_cir_tree_header, search_cir_tree / search_cir_tree_inner / CirTreeBlockSearchIter, read_node, nodes_overlapping, read_block_data (uncompressed), bigwigread::get_block_values (bedGraph section), BigWigIntervalIter::next - over an in-memory file (ScriptedFile, see its comment: requested node offset and block location are asserted against the file's layout); bytes::BytesMut replaced by the model verif_support::bbuf in both files
+// @bounds an independently encoded little-endian bigWig fragment: index header, one leaf node with one block whose recorded span is all of chromosome 0 (concrete, so that fetching the block is decided during symbolic execution), one bedGraph section with 3 values (1.5, -2.0, 0.25) whose coordinates are symbolic (full width); arbitrary query [qs, qe) on that chromosome
+// @stubs alloc::fmt::format -> empty; SmallVec::push -> within inline capacity (asserted); Vec::reserve -> first growth of an empty result vector allocates 4 slots (asserted otherwise)
+// @assumes stored values sorted and disjoint with start < end
+// @cut zlib (uncompress_buf_size = 0); several blocks / index levels (c05_search_2level_*); other section types (c10_block_values_*)
+// @witness cover: all three values returned; the middle value only, clipped on both sides; nothing returned
+#[kani::proof]
+#[kani::unwind(12)]
+#[kani::stub(alloc::fmt::format, crate::verif_support::fake_format)]
+#[kani::stub(alloc::vec::Vec::reserve, crate::verif_support::reserve_first_four)]
+#[kani::stub(smallvec::SmallVec::push, crate::verif_support::smallvec_push_inline)]
+fn c03_query_end_to_end() {
+    let s: [u32; 3] = [kani::any(), kani::any(), kani::any()];
+    let e: [u32; 3] = [kani::any(), kani::any(), kani::any()];
+    kani::assume(s[0] < e[0] && e[0] <= s[1] && s[1] < e[1] && e[1] <= s[2] && s[2] < e[2]);
+    let (qs, qe): (u32, u32) = (kani::any(), kani::any());
+    kani::assume(qs < qe);
+    let vals: [f32; 3] = [1.5, -2.0, 0.25];
+    let mut bw = crate::bbi::bbiread::verif_kani_bbiread::one_block_bigwig(s, e);
+    let mut out: [(u32, u32, u32); 4] = [(0, 0, 0); 4];
+    let mut n = 0usize;
+    let mut failed = false;
+    // BigWigRead::get_interval's three statements, with the iterator built in place: returned through
+    // `Result<BigWigIntervalIter, _>` (a niche-encoded enum = nested C unions for CBMC) the iterator's reference
+    // to the reader becomes an opaque pointer and every later read through it is symbolic
+    let chrom = bw.info.chrom_id("a");
+    let cir_tree = bw.full_data_cir_tree();
+    let pre_ok = chrom.is_ok() && cir_tree.is_ok();
+    assert!(pre_ok, "[ok] chromosome lookup / index header read failed on a well-formed file");
+    let chrom = match chrom { Ok(c) => c, Err(er) => { core::mem::forget(er); 0 } };
+    let blocks = match cir_tree {
+        Ok(ct) => search_cir_tree(&bw.info, &mut bw.read, ct, "a", qs, qe),
+        Err(er) => { core::mem::forget(er); return; }
+    };
+    match blocks {
+        Ok(blocks) => {
+            // the block list comes back through `Result<Vec<Block>, _>` (opaque pointer, see above): it is checked
+            // against the index (one block, the section at 84..144) and re-built as a plain local Vec
+            let found_ok = blocks.len() == 1 && blocks[0].offset == 84 && blocks[0].size == 60;
+            core::mem::forget(blocks);
+            assert!(found_ok, "[search] the index search did not return exactly the block whose leaf item spans the queried chromosome");
+            let mut mine: Vec<Block> = Vec::with_capacity(1);
+            mine.push(Block { offset: 84, size: 60 });
+            let mut it = BigWigIntervalIter { r: std::marker::PhantomData, bigwig: &mut bw, known_offset: 0, blocks: mine.into_iter(), vals: None, chrom, start: qs, end: qe };
+            let mut k = 0;
+            while k < 4 {
+                match it.next() {
+                    Some(Ok(v)) => { out[n] = (v.start, v.end, v.value.to_bits()); n += 1; }
+                    Some(Err(er)) => { core::mem::forget(er); failed = true; }
+                    None => {}
+                }
+                k += 1;
+            }
+            core::mem::forget(it);
+        }
+        Err(er) => { core::mem::forget(er); failed = true; }
+    }
+    assert!(!failed, "[ok] querying a well-formed file failed");
+    // linear-scan oracle
+    let mut m = 0usize;
+    let mut i = 0;
+    while i < 3 {
+        if e[i] > qs && s[i] < qe {
+            let cs = if s[i] > qs { s[i] } else { qs };
+            let ce = if e[i] < qe { e[i] } else { qe };
+            assert!(m < n && out[m].0 == cs && out[m].1 == ce && out[m].2 == vals[i].to_bits(), "[value] an overlapping stored value is missing, unclipped, out of order or has a different value");
+            m += 1;
+        }
+        i += 1;
+    }
+    assert!(n == m, "[count] the query returned values that do not overlap it (or duplicates)");
+    let c1 = n == 3;
+    kani::cover!(c1, "all three values returned");
+    let c2 = (n == 1) & (qs > s[1]) & (qe < e[1]);
+    kani::cover!(c2, "the middle value only, clipped on both sides");
+    let c3 = n == 0;
+    kani::cover!(c3, "nothing returned");
+    core::mem::forget(bw);
+}
